@@ -8,14 +8,15 @@ import re
 from hypothesis import strategies as st
 
 from gens import numwords as W
-from lib.engine import R, V, enum_part, hyp_part
+from lib.engine import R, V, enum_part, hyp_part, concurrent_part
 
 ID = 'C04'
 RULE = ('n drawn per culture below its bound (en 10^15; fr, zh 10^12; es, pt, it, de, nl 10^9; ja 10^6): exhaustive 0..9999 (en in the quick tier, '
         'all nine cultures in the thorough tier), Hypothesis integers biased to 10^k, 10^k+-1, all-nines, groups equal to 0/1/10-19; English '
         'spelling variants (with/without "and", hyphenated or blank-separated tens); cardinal model for all cultures, ordinal model for '
         'en (all n >= 1) and zh/ja (第N); alone or inside a carrier; non-trivial = n >= 100 with at least two non-zero 3-digit groups or a '
-        'tens-unit compound; distinct = (culture, kind, phrase, carrier)')
+        'tens-unit compound; distinct = (culture, kind, phrase, carrier); concurrent part: the same generated cases evaluated 2-4 at a time on simultaneous threads (switch interval 10 us), '
+        'cases that are clean alone must stay clean')
 ASSUMPTIONS = ['gens/numwords.py (orthography functions typed into the harness) states the standard written form of each language',
                'carriers are static per-culture sentences that contain no number word']
 
@@ -213,4 +214,6 @@ def parts(tier, seed):
     ps = [enum_part('exhaustive-0-9999', small(['en-us'] if q else CULTURES), run_case, exhaustive=True)]
     for c in CULTURES:
         ps.append(hyp_part('sampled-' + c, (lambda c=c: cases(c)), run_case, 2000 if q else 40000, min_shard=500))
+    ps.append(concurrent_part('concurrent-mixed-cultures', lambda: st.one_of([cases(c) for c in ('en-us', 'es-es', 'de-de', 'zh-cn', 'pt-br')]), run_case,
+                              300 if q else 6000, min_shard=50))
     return ps
